@@ -156,7 +156,7 @@ fn step(m: &mut RawMachine) {
 }
 
 #[cfg_attr(kani, kani::proof)]
-#[cfg_attr(kani, kani::unwind(6))]
+#[cfg_attr(kani, kani::unwind(12))]
 pub(crate) fn c09_mul_variant() {
     let mut m = any_raw();
     vassume(wf_raw(&m));
@@ -185,7 +185,7 @@ pub(crate) fn c09_mul_variant() {
 }
 
 #[cfg_attr(kani, kani::proof)]
-#[cfg_attr(kani, kani::unwind(4))]
+#[cfg_attr(kani, kani::unwind(12))]
 pub(crate) fn c09_div_variant() {
     let mut m = any_raw();
     vassume(wf_raw(&m));
